@@ -1,7 +1,8 @@
 #!/bin/bash
-# tools/muttest.sh <prop> <m> <checks...> : bench-run + demo confirmation; appends a line to /tmp/mut_results.txt
-P=$1; M=$2; shift; shift
-D=/tmp/mut_$(echo $P | tr A-Z a-z)
+# tools/muttest.sh <dir-prefix> <prop> <m> <checks...> : bench-run + demo confirmation; appends to /tmp/mut_results.txt
+# e.g. tools/muttest.sh /tmp/mut5_ C09 m5 C09
+PRE=$1; P=$2; M=$3; shift; shift; shift
+D=${PRE}$(echo $P | tr A-Z a-z)
 OUT=$(TAIL=1 /verif/tools/mutbench.sh $D/_deliver/$M/patch.diff "$@" 2>&1 | grep "^\[C")
 ( cd $D && git apply _deliver/$M/patch.diff && (bash _deliver/$M/demo.sh > /tmp/demo_${P}_$M.with 2>&1; echo "demo-with-exit=$?" > /tmp/demo_${P}_$M.rc); git checkout -q -- . ; (bash _deliver/$M/demo.sh > /tmp/demo_${P}_$M.without 2>&1; echo "demo-without-exit=$?" >> /tmp/demo_${P}_$M.rc) )
 echo "== $P-$M: $(cat /tmp/demo_${P}_$M.rc | tr '\n' ' ')" >> /tmp/mut_results.txt
